@@ -29,9 +29,13 @@ func methodNotations(f *Facts) map[string][]Notation {
 	}
 	for _, so := range f.File.Scope {
 		for _, m := range so.Methods {
-			for _, node := range m.DocChain {
+			for _, enc := range m.DocChain {
+				node := enc / 8
+				if enc%8 != 4 {
+					continue // a method's doc is the doc of its own field
+				}
 				if node >= len(f.File.DocOf) || f.File.DocOf[node] == nil {
-					continue
+					break
 				}
 				for _, c := range f.File.Groups[*f.File.DocOf[node]] {
 					mm := reNotationH.FindStringSubmatch(c.Text)
@@ -94,7 +98,7 @@ func notationRelation(ns []Notation, path string) (explicit, foldOnly, skipRelat
 }
 
 func init() {
-	judges = append(judges, localisationJudge, selfJudgeC14)
+	judges = append(judges, localisationJudge, selfJudgeC14, selfJudgeC03, selfJudgeC11)
 }
 
 // selfJudgeC14 judges the implementation's observation alone: a crash, a hang, or a non-zero exit
@@ -234,6 +238,57 @@ func localisationJudge(root string, c GCase, rep *CaseReport) []Judgement {
 		case "C01", "C02":
 			// judged independently (compiler / run-time driver)
 		}
+	}
+	return out
+}
+
+// selfJudgeC03: the front half (model) accepts the setup file and nothing of it is unusual, yet the
+// run fails: a well-formed setup file is rejected.
+func selfJudgeC03(root string, c GCase, rep *CaseReport) []Judgement {
+	if judgeProp != "C03" || rep == nil || rep.Model == nil {
+		return nil
+	}
+	if rep.Model.Status == "ok" && rep.CLI.Class == "error" {
+		return []Judgement{{Property: "C03", Case: c.Name, Key: "C03|rejected-after-front-half|" + rep.BackHalfError,
+			What: "the setup file passes every check of the parser and builder, yet the run fails: " + firstLine(strings.Join(canonStderr(rep.CLI.Stderr, root), " / "))}}
+	}
+	if rep.Model.Status == "ok" && rep.CLI.Class == "ok" && rep.Output != "" {
+		// one function per method
+		fl, err := readFuncs([]byte(rep.Output))
+		if err == nil {
+			have := map[string]bool{}
+			for _, f := range fl {
+				have[bareName(f.Key)] = true
+			}
+			for _, b := range rep.Model.Blocks {
+				for _, f := range b.Funcs {
+					if !have[f.Name] {
+						return []Judgement{{Property: "C03", Case: c.Name, Key: "C03|function-missing", What: "no function for method " + f.Name}}
+					}
+				}
+			}
+		}
+	}
+	return nil
+}
+
+// selfJudgeC11 compares the output's AST with the setup file's.
+func selfJudgeC11(root string, c GCase, rep *CaseReport) []Judgement {
+	if judgeProp != "C11" || rep == nil || rep.Model == nil || rep.CLI.Class != "ok" || rep.Output == "" || rep.SetupSrc == "" {
+		return nil
+	}
+	conv := map[string]bool{}
+	for _, b := range rep.Model.Blocks {
+		conv[b.Intf] = true
+	}
+	var out []Judgement
+	seen := map[string]bool{}
+	for _, kw := range judgeCarryOver([]byte(rep.SetupSrc), []byte(rep.Output), conv) {
+		if seen[kw[0]] {
+			continue
+		}
+		seen[kw[0]] = true
+		out = append(out, Judgement{Property: "C11", Case: c.Name, Key: kw[0], What: kw[1]})
 	}
 	return out
 }
